@@ -11,7 +11,7 @@ PROPERTY = 'C04'
 LEVEL = 'model_checking'
 RULE = ('every program = (0-3 handlers of event e with distinct priorities drawn from 12 shapes: return v / return None / raise / '
         'generator yielding 0-2 values (None or not) / generator raising at step 0 or 1) x (success, failure, notify, '
-        'success_channels) x optional nested event fired by a handler; each program executed once, driven by tick() to '
+        'success_channels) x (optional nested event fired by a handler | the event fired twice: after the first settled / both in flight); each program executed once, driven by tick() to '
         'quiescence; non-trivial = at least two different handler shapes or a raising/generator handler; distinct = distinct program')
 ASSUMPTIONS = [
     'result values are ints (list-valued handler results are not in the alphabet)',
@@ -67,10 +67,23 @@ def programs(tier):
                 for fh in nest_h:
                     for fi in (3 * 4, 15) if tier == 'quick' else (0, 12, 15):
                         yield hs, fi, (who, fh)
+    # repeat family: the same event type is fired twice in one world - the second one after the first has settled ('seq',
+    # handler caches warm) or while the first is still in flight ('conc'); each instance is judged on its own
+    for n in range(0, 3):
+        for hs in itertools.product(range(NSH), repeat=n):
+            for fi in range(len(FLAGS)):
+                for mode in ('seq', 'conc'):
+                    yield hs, fi, (mode,)
+
+
+def is_repeat(nested):
+    return nested is not None and nested[0] in ('seq', 'conc')
 
 
 def build(program):
     hs, fi, nested = program
+    if is_repeat(nested):
+        nested = None
     handlers = []
     n = len(hs)
     for i, si in enumerate(hs):
@@ -101,10 +114,19 @@ def execute(program):
     finally:
         ghost.World.observe_names = None
     flags = FLAGS[fi]
-    e = w.fire('e', flags)
-    s = w.fire('s')
     crashed = None
+    quiescent = False
     try:
+        if is_repeat(nested):
+            w.value_by_eid = True
+            e = w.fire('e', flags)
+            if nested[0] == 'seq':
+                w.settle()
+            w.second = w.fire('e', flags)
+            s = w.fire('s')
+        else:
+            e = w.fire('e', flags)
+            s = w.fire('s')
         quiescent, ticks = w.settle()
     except BaseException as exc:  # noqa: BLE001 - an exception escaping tick() is itself a verdict
         crashed = repr(exc)
@@ -173,7 +195,9 @@ def judge(program, w, e, s, quiescent, crashed):
     judge_event(w, e.eid, ['e%d' % i for i in range(len(hs))], flags, hs, bad, 'e:')
     if not any(x[0] == 'enter' and x[1] == 's0' for x in w.log):
         bad.append(('sentinel', 'the later event s was never dispatched'))
-    if nested is not None:
+    if is_repeat(nested):
+        judge_event(w, w.second.eid, ['e%d' % i for i in range(len(hs))], flags, hs, bad, 'second e (%s):' % nested[0])
+    elif nested is not None:
         fe = [x[1] for x in w.log if x[0] == 'fire' and x[2] == 'f']
         if len(fe) != 1:
             bad.append(('harness', 'nested event fired %d times' % len(fe)))
@@ -206,7 +230,9 @@ def _work(part, nparts, payload):
             st.interesting(program)
         if any(si == 2 for si in hs) and any(si >= 3 for si in hs):
             st.counters['programs_mixing_raise_and_generator'] += 1
-        if program[2] is not None:
+        if is_repeat(program[2]):
+            st.counters['programs_firing_the_event_twice'] += 1
+        elif program[2] is not None:
             st.counters['programs_with_nested_event'] += 1
         if part == seed % nparts and idx in (7, 500):
             st.sample({'program': prog_json(program), 'log': [list(x) for x in w.log][:40]})
@@ -218,7 +244,7 @@ def _work(part, nparts, payload):
 def prog_json(program):
     hs, fi, nested = program
     return {'handlers': [shapes(0)[si][0] for si in hs], 'hs': list(hs), 'flags_index': fi, 'flags': FLAGS[fi],
-            'nested': None if nested is None else [nested[0], list(nested[1])]}
+            'nested': None if nested is None else ([nested[0]] if is_repeat(nested) else [nested[0], list(nested[1])])}
 
 
 def run(tier, seed, workers):
@@ -240,7 +266,7 @@ def run(tier, seed, workers):
 
 
 def replay(wit):
-    nested = None if wit['nested'] is None else (wit['nested'][0], tuple(wit['nested'][1]))
+    nested = None if wit['nested'] is None else ((wit['nested'][0],) if len(wit['nested']) == 1 else (wit['nested'][0], tuple(wit['nested'][1])))
     program = (tuple(wit['hs']), wit['flags_index'], nested)
     w, e, s, quiescent, crashed = execute(program)
     bad = judge(program, w, e, s, quiescent, crashed)
